@@ -129,6 +129,22 @@ W.contract(
 )
 
 W.contract(
+    LL + "__iter__#interleaved",
+    params=dict(self=LAZY), result=SEQ(VAL), yields=VAL, lets=LETS, requires=[INV],
+    interference=dict(lets={"k_b": K}, modifies=MODS, rely=[INV, f"{K} >= k_b"]),
+    ensures=[f"result == {SRC}", INV],
+    ensures_names=["C13-iterates-the-list-whatever-happens-between-yields", "C13-inv"],
+    modifies=MODS,
+    loops={"yieldfrom#0": dict(inv=[INV, f"_yielded == {SRC}[:_j]", "0 <= _j", "_j <= len(_yf)", "_yf == self.generated"]),
+           0: dict(inv=[INV, f"_yielded == {SRC}[:i]", "0 <= i", f"i <= len({SRC})"])},
+    hints=[f"{SRC}[:len({SRC})] == {SRC}"],
+    note="interleaved use: while the iterator is suspended at a yield, other references may pull further items (the cache only grows, "
+         "the invariant is kept); the iterator still yields every item exactly once and in order.  This is the case of a copy "
+         "(deep_copy tees the iterator) read in between observations of the original, and of two iterators in lock-step (x:Z)",
+    props=["C13", "C16", "C10"],
+)
+
+W.contract(
     LL + "__len__",
     params=dict(self=LAZY), result=INT, lets=LETS, requires=[INV],
     ensures=[f"result == len({SRC})", INV],
